@@ -323,9 +323,10 @@ def build_files(case, d, truth):
                         ds.apply_filter()
                         idx = [i for i, keep in zip(idx, pf) if keep]
                         ds = dclab.new_dataset(ds)
-                    ds.filter.manual[:] = np.array(st["filt"], dtype=bool)
+                    filt = expand_filt(st["filt"])
+                    ds.filter.manual[:] = np.array(filt, dtype=bool)
                     ds.apply_filter()
-                    idx = [i for i, keep in zip(idx, st["filt"]) if keep]
+                    idx = [i for i, keep in zip(idx, filt) if keep]
                     feats = st["feats"]
                     ds.export.hdf5(path, features=feats, basins=True,
                                    filtered=True)
@@ -391,8 +392,63 @@ def build_files(case, d, truth):
             info.setdefault("rid", "?")
             info.setdefault("via_file", set())
             info.setdefault("via_int", set())
+        if not info["err"]:
+            try:
+                info["struct"] = check_basin_defs(path, info, files)
+            except BaseException as e:
+                info["struct"] = "cannot read the basin definitions: %r" % (e,)
         files.append(info)
     return files
+
+
+def expand_filt(filt):
+    """filters of big cases are stored compressed: {"len": n, "drop": [..]}"""
+    if isinstance(filt, dict):
+        out = [True] * filt["len"]
+        for i in filt["drop"]:
+            out[i] = False
+        return out
+    return filt
+
+
+def check_basin_defs(path, info, files):
+    """Raw h5py: every file-type basin definition of the file just written
+    must refer to a map feature M with omap[target][M] == omap[file] (for
+    "same": equal omaps). Independent of lookup order. Returns None or a
+    description."""
+    import h5py
+    import numpy as np
+    omap = np.array(info["omap"], dtype=np.int64)
+    with h5py.File(path, "r") as h5:
+        if "basins" not in h5:
+            return None
+        for key in h5["basins"]:
+            lines = [ln.decode("utf-8") if isinstance(ln, bytes) else ln
+                     for ln in h5["basins"][key][:]]
+            bd = json.loads(" ".join(lines))
+            if bd.get("type") != "file":
+                continue
+            name = os.path.basename(bd["paths"][0])
+            if not (name.startswith("f") and name.endswith(".rtdc")):
+                continue
+            tgt = files[int(name[1:-5])]
+            tomap = np.array(tgt["omap"], dtype=np.int64)
+            mapping = bd.get("mapping", "same")
+            if mapping == "same":
+                ok = tomap.shape == omap.shape and bool(np.all(tomap == omap))
+                got = "same"
+            else:
+                m = np.array(h5["events"][mapping][:], dtype=np.int64)
+                got = "%s=%s..." % (mapping, m[:6].tolist())
+                ok = (m.shape == omap.shape and
+                      (m.size == 0 or (m.min() >= 0 and m.max() < tomap.size
+                                       and bool(np.all(tomap[m] == omap)))))
+            if not ok:
+                return ("basin definition '%s' -> %s uses mapping %s which "
+                        "does not lead to the origin events of the file "
+                        "(%s...)" % (bd.get("name"), name, got,
+                                     omap[:6].tolist()))
+    return None
 
 
 # --------------------------------------------------------------------------
@@ -479,6 +535,8 @@ def run_case(args):
     case, scratch = args
     import warnings
     warnings.simplefilter("ignore")
+    if case.get("kind") == "bigmap":
+        return run_bigmap(case, scratch)
     import dclab
     d = os.path.join(scratch, "case")
     shutil.rmtree(d, ignore_errors=True)
@@ -495,6 +553,12 @@ def run_case(args):
                 fails.append(("step %d (%s) failed: %s" % (
                     k, case["steps"][k]["op"], info["err"]),
                     classify_step(case, k, info["err"])))
+            if info.get("struct"):
+                stp = case["steps"][k]
+                fid = F_HIER if (stp["op"] == "export" and stp["pfilts"]
+                                 and _upstream_has_basins(case, stp["src"])
+                                 ) else None
+                fails.append(("file %d: %s" % (k, info["struct"]), fid))
         if case.get("move"):
             d2 = d + "-moved"
             shutil.rmtree(d2, ignore_errors=True)
@@ -541,6 +605,173 @@ def run_case(args):
     finally:
         shutil.rmtree(d, ignore_errors=True)
     return dict(flat=flat, fails=fails, nontrivial=nontrivial, stats=stats)
+
+
+# --------------------------------------------------------------------------
+# large-index family: store_basin's reuse test on maps with large entries
+# --------------------------------------------------------------------------
+def bigmap_arrays(case):
+    import numpy as np
+    base = np.arange(case["L"], dtype=np.int64) + case["off"]
+    maps = []
+    for diffs, _name in case["maps"]:
+        m = base.copy()
+        for pos, delta in diffs:
+            m[pos] += delta
+        maps.append(m.astype(np.uint64))
+    return maps
+
+
+def checksum(m):
+    acc = 0
+    for x in m:
+        acc = (acc * 31 + int(x)) % 1000003
+    return acc
+
+
+def run_bigmap(case, scratch):
+    """store_basin with maps that are equal except for small differences at
+    large entries. Observation (raw h5py): the basinmap feature every basin
+    definition refers to, and the content of every basinmap feature."""
+    import h5py
+    import numpy as np
+    from dclab.rtdc_dataset.writer import RTDCWriter
+    from . import gen
+    d = os.path.join(scratch, "big")
+    shutil.rmtree(d, ignore_errors=True)
+    os.makedirs(d)
+    path = os.path.join(d, "ref.rtdc")
+    fails = []
+    flat = []
+    try:
+        maps = bigmap_arrays(case)
+        failed = False
+        with RTDCWriter(path, mode="append") as hw:
+            hw.store_metadata(gen.base_meta(run_id="rid-big-x"))
+            try:
+                for j, (m, (_d, name)) in enumerate(zip(maps, case["maps"])):
+                    bm = m if name is None else ("basinmap%d" % name, m)
+                    hw.store_basin(basin_name="b%d" % j, basin_type="file",
+                                   basin_format="hdf5",
+                                   basin_locs=["/nonexistent/origin.rtdc"],
+                                   basin_map=bm, verify=False)
+            except ValueError:
+                failed = True
+        if failed:
+            flat = [-1]
+        else:
+            with h5py.File(path, "r") as h5:
+                slot_of = {}
+                for key in h5["basins"]:
+                    lines = [ln.decode("utf-8") if isinstance(ln, bytes)
+                             else ln for ln in h5["basins"][key][:]]
+                    bd = json.loads(" ".join(lines))
+                    slot_of[int(bd["name"][1:])] = bd["mapping"]
+                for j, m in enumerate(maps):
+                    mp = slot_of.get(j)
+                    if mp is None or not mp.startswith("basinmap"):
+                        flat.append(-2)
+                        fails.append(("basin b%d has mapping %r" % (j, mp),
+                                      None))
+                        continue
+                    flat.append(int(mp[8:]))
+                    stored = h5["events"][mp][:]
+                    if stored.shape != m.shape or \
+                            not bool(np.all(stored == m)):
+                        bad = np.nonzero(stored != m)[0][:3] \
+                            if stored.shape == m.shape else []
+                        fails.append((
+                            "basin b%d was given a map that differs from "
+                            "the other maps only at %s; store_basin bound "
+                            "it to %s which holds a different map (first "
+                            "differences at %s: stored %s, requested %s)"
+                            % (j, case["maps"][j][0][:3], mp,
+                               [int(b) for b in bad],
+                               [int(stored[b]) for b in bad],
+                               [int(m[b]) for b in bad]), None))
+                flat.append(-3)
+                for k in range(10):
+                    nm = "basinmap%d" % k
+                    if nm in h5["events"]:
+                        arr = h5["events"][nm][:]
+                        flat += [k, int(arr.size), checksum(arr)]
+    except BaseException:
+        import traceback
+        fails.append(("harness error: %s" % traceback.format_exc()[-600:],
+                      None))
+    finally:
+        shutil.rmtree(d, ignore_errors=True)
+    return dict(flat=flat, fails=fails, nontrivial=len(case["maps"]) > 1,
+                stats={})
+
+
+def gen_bigmap(rng, huge=False):
+    """maps of equal length whose entries are large (index >= 1e5) and that
+    are equal except for differences of 1..3 at a few positions; identical
+    maps exercise the reuse"""
+    if huge:
+        L = 100000 + rng.randint(1, 50)
+        off = rng.choice([0, 0, 200000])
+    else:
+        L = rng.randint(3, 60)
+        off = rng.choice([100000, 150000, 250000, 400000, 1000000])
+    nmaps = rng.choice([2, 3, 3, 4, 5])
+    if rng.random() < 0.06:
+        nmaps = 11             # exhausts basinmap0..9
+    variants = [[]]
+    maps = []
+    for _ in range(nmaps):
+        r = rng.random()
+        if r < 0.3 and nmaps < 11:
+            diffs = rng.choice(variants)          # identical to an earlier one
+        else:
+            npos = rng.randint(1, 3)
+            lo = L - 40 if huge else 0            # values >= 1e5 there
+            diffs = sorted(
+                [rng.randrange(max(0, lo), L), rng.choice([1, 1, 2, 3, -1])]
+                for _ in range(npos))
+            diffs = [d for i, d in enumerate(diffs)
+                     if i == 0 or diffs[i - 1][0] != d[0]]
+            if huge and off == 0 and rng.random() < 0.3:
+                diffs = [[rng.randrange(0, 50000), 1]]   # small index
+            variants.append(diffs)
+        name = rng.randint(0, 9) if rng.random() < 0.08 else None
+        maps.append([diffs, name])
+    return dict(kind="bigmap", L=L, off=off, maps=maps)
+
+
+def gen_bigchain(rng):
+    """depth-2 filtered export chain over ~1.2e5..1.5e5 events in which the
+    filters only drop high-index events (oracle only, too big for the
+    model)"""
+    n = rng.choice([120000, 150000])
+    d1 = sorted(rng.sample(range(100001, n), rng.randint(1, 2)))
+    n1 = n - len(d1)
+    d2 = sorted(rng.sample(range(100001, n1), rng.randint(0, 1)))
+    n2 = n1 - len(d2)
+    steps = [dict(op="write", feats=list(SCALARS), basins=[], rechunk=None),
+             dict(op="export", src=0, pfilts=[],
+                  filt=dict(len=n, drop=d1), feats=[]),
+             dict(op="export", src=1, pfilts=[],
+                  filt=dict(len=n1, drop=d2), feats=[])]
+    qs = []
+    for fid, m in ((1, n1), (2, n2)):
+        qs += [[fid, "g_force", ["int", -1]],
+               [fid, "pc1", ["int", d1[0]]],
+               [fid, "g_force", ["slice", d1[0] - 2, d1[0] + 3, None]],
+               [fid, "pc2", ["int", m - 1]]]
+    return dict(seed=rng.randrange(10 ** 6), n=n, kinds=["scalar"],
+                steps=steps, move=False, queries=qs, nomodel=True)
+
+
+def render_big(case):
+    ms = []
+    for diffs, name in case["maps"]:
+        ms.append("(%s, %s)" % (
+            common.clist(["(%d, %s)" % (p, common.zlit(d))
+                          for p, d in diffs]),
+            "(@None Z)" if name is None else "(Some %s)" % common.zlit(name)))
+    return "(%d, %d, %s)" % (case["L"], case["off"], common.clist(ms))
 
 
 # --------------------------------------------------------------------------
@@ -1078,7 +1309,7 @@ def run_cases(cases, scratch):
         jobs.append((c, os.path.join(scratch, "w%d" % i)))
     ctx = multiprocessing.get_context("fork")
     with ctx.Pool(min(common.NCPU, max(1, len(jobs)))) as pool:
-        return pool.map(run_case, jobs, chunksize=2)
+        return pool.map(run_case, jobs, chunksize=1)
 
 
 def run(run):
@@ -1087,9 +1318,29 @@ def run(run):
     run.count("corpus", len(cases))
     while len(cases) < ncases:
         cases.append(gen_case(run.rng, run.thorough))
+    # large-index family (store_basin reuse test) and one big export chain
+    nbig = 40 if run.thorough else 8
+    for k in range(nbig):
+        cases.append(gen_bigmap(run.rng, huge=(k % 8 == 0)))
+    for k in range(3 if run.thorough else 1):
+        cases.append(gen_bigchain(run.rng))
+    # the slow ones first
+    cases.sort(key=lambda c: 0 if (c.get("nomodel") or c.get("L", 0) > 1000)
+               else 1)
     results = run_cases(cases, run.scratch)
     for c, res in zip(cases, results):
         run.record_case(c, res["nontrivial"])
+        seen = set()
+        for desc, fid in res["fails"]:
+            if (fid, desc[:40]) in seen:
+                continue
+            seen.add((fid, desc[:40]))
+            run.oracle_failure(c, desc, fid)
+        if c.get("kind") == "bigmap":
+            run.count("bigmap:L>1e5" if c["L"] > 1000 else "bigmap:small")
+            continue
+        if c.get("nomodel"):
+            run.count("bigchain")
         run.count("n=%d" % c["n"])
         run.count("move" if c.get("move") else "stay")
         for st in c["steps"]:
@@ -1104,19 +1355,19 @@ def run(run):
         for q in c["queries"]:
             run.count("ix:" + q[2][0])
             run.count("feat:" + q[1].split("/")[0])
-        seen = set()
-        for desc, fid in res["fails"]:
-            if (fid, desc[:40]) in seen:
-                continue
-            seen.add((fid, desc[:40]))
-            run.oracle_failure(c, desc, fid)
+    reg = [(c, r) for c, r in zip(cases, results)
+           if c.get("kind") != "bigmap" and not c.get("nomodel")]
+    big = [(c, r) for c, r in zip(cases, results)
+           if c.get("kind") == "bigmap"]
     model = common.coq_map(run.scratch, "c07", HEADER, "run_flat",
-                           [render(c) for c in cases], shard=12)
-    for c, m, res in zip(cases, model, results):
+                           [render(c) for c, _ in reg], shard=12)
+    modelb = common.coq_map(run.scratch, "c07big", HEADER, "run_big",
+                            [render_big(c) for c, _ in big], shard=4)
+    for (c, res), m in list(zip(reg, model)) + list(zip(big, modelb)):
         run.corr_checked += 1
         if m != res["flat"]:
             run.mismatch(c, m, res["flat"])
-    run.extra["chain_depths"] = chain_depth_hist(cases)
+    run.extra["chain_depths"] = chain_depth_hist([c for c, _ in reg])
 
 
 def chain_depth_hist(cases):
@@ -1153,7 +1404,27 @@ def _unknown_fails(case):
 
 def shrink(run, failure):
     case = failure["case"]
-    if "steps" not in case:
+    if case.get("kind") == "bigmap":
+        # drop maps that are not needed for the failure
+        def bad(c):
+            try:
+                fs = _eval_one(c)["fails"]
+            except BaseException:
+                return None
+            return fs[0][0] if fs else None
+        maps = list(case["maps"])
+        desc = failure["desc"]
+        i = 0
+        while i < len(maps) and len(maps) > 2:
+            cand = dict(case, maps=maps[:i] + maps[i + 1:])
+            dsc = bad(cand)
+            if dsc:
+                maps, desc = cand["maps"], dsc
+            else:
+                i += 1
+        return dict(case=dict(case, maps=maps), desc=desc,
+                    finding=failure.get("finding"))
+    if "steps" not in case or case.get("nomodel"):
         return failure
     want = failure.get("finding")
 
@@ -1195,7 +1466,8 @@ def search(run, broken):
     rng = random.Random(run.rng.random())
     total = 4000 if run.thorough else 640
     for k in range(0, total, 64):
-        cases = [gen_case(rng, True) for _ in range(64)]
+        cases = [gen_case(rng, True) for _ in range(56)] + \
+            [gen_bigmap(rng, huge=(i == 0)) for i in range(8)]
         results = run_cases(cases, os.path.join(run.scratch, "s%d" % k))
         for c, res in zip(cases, results):
             for desc, fid in res["fails"]:
@@ -1206,7 +1478,7 @@ def search(run, broken):
 
 def replay(payload):
     case = payload.get("case")
-    if not case or "steps" not in case:
+    if not case or ("steps" not in case and case.get("kind") != "bigmap"):
         print("replay: nothing executable in this file (kind=%s): %s" % (
             payload.get("kind"), json.dumps(payload.get("broken"))[:2000]))
         return 1
